@@ -137,15 +137,15 @@ CompareFile(final) ==
        ELSE
        \* which file_id is reported when a stream carries several is not pinned;
        \* the type that selected the container (the first one's) is.
-       /\ IF dec.fileids = 1 THEN CompareMsg(w @@ [slot |-> "FileId"], 0, dec.fileid, {}, o.fileid, [csd |-> FALSE], gacc, lacc) ELSE TRUE
+       /\ IF dec.fileids = 1 THEN CompareMsg(w @@ [slot |-> "FileId"], 0, dec.fileid, dec.fileidskip, o.fileid, [csd |-> FALSE], gacc, lacc) ELSE TRUE
        /\ IF o.type = dec.ftype THEN TRUE ELSE Note(w @@ [what |-> "file type", expected |-> dec.ftype, observed |-> o.type])
        /\ IF final = "either" THEN TRUE
           ELSE
           /\ IF final = "accept" /\ o.crc # dec.filecrc THEN Note(w @@ [what |-> "file crc field", expected |-> dec.filecrc, observed |-> o.crc]) ELSE TRUE
           /\ IF dec.hascreator = (Len(o.creator) = 1) THEN TRUE ELSE Note(w @@ [what |-> "file_creator presence"])
-          /\ IF dec.hascreator /\ Len(o.creator) = 1 THEN CompareMsg(w @@ [slot |-> "FileCreator"], MFileCreator, dec.creator, {}, o.creator[1], [csd |-> FALSE], gacc, lacc) ELSE TRUE
+          /\ IF dec.hascreator /\ Len(o.creator) = 1 THEN CompareMsg(w @@ [slot |-> "FileCreator"], MFileCreator, dec.creator, dec.creatorskip, o.creator[1], [csd |-> FALSE], gacc, lacc) ELSE TRUE
           /\ IF dec.hastc = (Len(o.tc) = 1) THEN TRUE ELSE Note(w @@ [what |-> "timestamp_correlation presence"])
-          /\ IF dec.hastc /\ Len(o.tc) = 1 THEN CompareMsg(w @@ [slot |-> "TimestampCorrelation"], MTimestampCorrelation, dec.tc, {}, o.tc[1], [csd |-> FALSE], gacc, lacc) ELSE TRUE
+          /\ IF dec.hastc /\ Len(o.tc) = 1 THEN CompareMsg(w @@ [slot |-> "TimestampCorrelation"], MTimestampCorrelation, dec.tc, dec.tcskip, o.tc[1], [csd |-> FALSE], gacc, lacc) ELSE TRUE
           /\ IF ~ValidFileType(dec.ftype) THEN
                  IF o.accessors = << >> THEN TRUE ELSE Note(w @@ [what |-> "accessor succeeds for an unsupported file type", observed |-> o.accessors])
              ELSE
@@ -212,7 +212,7 @@ FinishFile ==
           ELSE TRUE
        /\ IF dec.mode \in {"header", "fileid"} /\ final = "accept" /\ Call.ret.err = 0 THEN
               /\ IF HdrEq(dec.hdr, Call.ret.hdr[1]) THEN TRUE ELSE Note(Where @@ [what |-> "returned header", expected |-> dec.hdr, observed |-> Call.ret.hdr[1]])
-              /\ IF dec.mode = "fileid" THEN CompareMsg(Where @@ [slot |-> "FileId"], 0, dec.fileid, {}, Call.ret.fileid[1], [csd |-> FALSE], gacc, lacc) ELSE TRUE
+              /\ IF dec.mode = "fileid" THEN CompareMsg(Where @@ [slot |-> "FileId"], 0, dec.fileid, dec.fileidskip, Call.ret.fileid[1], [csd |-> FALSE], gacc, lacc) ELSE TRUE
           ELSE TRUE
        /\ IF Call.api = "chained" /\ final = "accept"
           THEN /\ ti' = ti /\ fi' = fi + 1 /\ frames' = frs
